@@ -264,6 +264,7 @@ def run_case(cid: str, case: Dict[str, Any]) -> List[str]:
     lines.append(f"TAIL {hexs(case['tail'])} {case['end']}")
     lines.append("SUB %d %s" % (int(bool(sub_all)), " ".join(map(str, subs))))
     obs = []
+    held = []
     stop = False
     for call in case["calls"]:
         if call[0] == "sub":
@@ -285,6 +286,7 @@ def run_case(cid: str, case: Dict[str, Any]) -> List[str]:
                 r = "none"
             else:
                 r = f"msg {hexs(mask(bytes(m.header)))} {hexs(bytes(m.data))}"
+                held.append((len(obs), m))      # the caller keeps the message: it is rendered again after the last read
         except WouldBlock:
             r = "blocked"
             stop = True
@@ -301,6 +303,11 @@ def run_case(cid: str, case: Dict[str, Any]) -> List[str]:
         except Exception as e:  # noqa: BLE001 - every exception is an observation
             r = f"crash:{type(e).__name__}"
         obs.append(f"OBS {sock.pos - before} {int(bool(c.connected))} {r}")
+    # a message that was handed out stays what it was: re-render every returned message after the last read (a payload
+    # that aliases a buffer the client re-uses shows up as a changed frame here)
+    for i, m in held:
+        t = obs[i].split(" ", 3)
+        obs[i] = " ".join(t[:3]) + f" msg {hexs(mask(bytes(m.header)))} {hexs(bytes(m.data))}"
     lines += obs
     lines.append("END")
     c._connected = False       # keep __del__ from "disconnecting" (it sleeps 100 ms)
